@@ -49,7 +49,8 @@ def preOf? : String → Option PreOp
 def eqOf? : String → Option EqOp
   | "=" => some .assign | ":=" => some .refAssign | "+=" => some .addAsg | "-=" => some .subAsg | "*=" => some .mulAsg | _ => none
 def tyOf? : String → Option TyTag
-  | "int" => some .int | "bool" => some .bool | "string" => some .string | "eval_error" => some .evalError | _ => none
+  | "int" => some .int | "bool" => some .bool | "string" => some .string | "eval_error" => some .evalError | "exception" => some .exception_
+  | "runtime_error" => some .runtimeError | "out_of_range" => some .outOfRange | "logic_error" => some .logicError | _ => none
 
 /-- reserved cells at the start of every program's heap: builtins and native callbacks -/
 def preludeCells : List Val :=
@@ -225,6 +226,7 @@ def litStr (L : Lits) (l : Loc) : String :=
 
 def tyStr : TyTag → String
   | .int => "int" | .bool => "bool" | .string => "string" | .evalError => "eval_error" | .exception_ => "exception"
+  | .runtimeError => "runtime_error" | .outOfRange => "out_of_range" | .logicError => "logic_error"
 
 def eqStr : EqOp → String
   | .assign => "=" | .refAssign => ":=" | .addAsg => "+=" | .subAsg => "-=" | .mulAsg => "*="
